@@ -356,6 +356,25 @@ def _emit_fn(g, source, a, blocks, vacuity, probe_insert=None):
         m = re.search(r"\bfn\s+(\w+)", sig_src)
         fname = m.group(1)
         rules.append(("R11c", f"async block {want} of `{f.item}` verified as `{norm(sig_src)}` (captured variables become parameters)"))
+    if a.get("closure_block"):
+        # R11f: the n-th zero-argument `move || { BODY }` closure of the function (a thread body) is verified as the
+        # function it is: `fn NAME(<captured variables, declared by the unit>) { BODY }` -- same idea as R11c
+        from rsx import full_tokens as _ft2, match_close as _mc7
+        btoks = _ft2(it.body_text)
+        sig_i = [k for k, t in enumerate(btoks) if t.kind not in ("ws", "comment")]
+        want, seen, found = int(a["closure_block"]), 0, None
+        for q, k in enumerate(sig_i):
+            if btoks[k].kind == "ident" and btoks[k].text == "move" and q + 2 < len(sig_i) and btoks[sig_i[q + 1]].text == "||" \
+                    and btoks[sig_i[q + 2]].text == "{":
+                seen += 1
+                if seen == want:
+                    found = (sig_i[q + 2], _mc7(btoks, sig_i[q + 2])); break
+        if not found:
+            raise ExtractError(f"anchor lost: `move || {{..}}` closure {want} of {f.item} in {f.file}")
+        body_src = "".join(t.text for t in btoks[found[0]:found[1] + 1])
+        sig_src = a["block_sig"]
+        fname = re.search(r"\bfn\s+(\w+)", sig_src).group(1)
+        rules.append(("R11f", f"closure {want} of `{f.item}` verified as `{norm(sig_src)}` (captured variables become parameters)"))
     sigtext = rewrite_sig(sig_src, rules, a.get("ret"))
     if a.get("sig_from"):      # R8-style declared receiver changes: `sig_replace="&self=>&mut self"`
         pass
@@ -415,6 +434,70 @@ def _emit_fn(g, source, a, blocks, vacuity, probe_insert=None):
                 break
         if not done:
             raise ExtractError(f"anchor lost: `.spawn(move || EXPR)` in {f.name}")
+    if a.get("tls_state"):
+        # R25: thread-local state passed explicitly.  The function gets one more parameter `r25_tls: &mut ThreadLocals`
+        # (this thread's instances of the crate's `thread_local!` cells); `KEY.with(|x| BODY)` becomes
+        # `{ let x = &mut r25_tls.FIELD; BODY }`, and calls of the functions the unit lists (`tls_calls`) pass `r25_tls`
+        # on.  The standard state-passing encoding of per-thread globals: each thread owns its own instance.
+        from rsx import match_close as _mc8
+        mapping = dict(x.split(":") for x in a["tls_state"].split(","))
+        # signature
+        # the parameter list: the first `(` outside the generic parameter list `<..>` that follows the name
+        m0 = re.search(r"\bfn\s+\w+", sigtext)
+        k0 = m0.end(); ang = 0
+        while k0 < len(sigtext):
+            ch = sigtext[k0]
+            if ch == "<": ang += 1
+            elif ch == ">" and sigtext[k0 - 1] != "-": ang -= 1
+            elif ch == "(" and ang == 0: break
+            k0 += 1
+        po = k0
+        depth = 0; pc = None
+        for k in range(po, len(sigtext)):
+            if sigtext[k] == "(": depth += 1
+            elif sigtext[k] == ")":
+                depth -= 1
+                if depth == 0: pc = k; break
+        inner = sigtext[po + 1:pc].strip()
+        sigtext = sigtext[:pc].rstrip().rstrip(",") + (", " if inner else "") + "r25_tls: &mut ThreadLocals" + sigtext[pc:]
+        n_with = 0
+        for key, field in mapping.items():
+            while True:
+                tk = tokenize(body)
+                sigk = [k for k, t in enumerate(tk) if t.kind not in ("ws", "comment")]
+                hit = None
+                for q, k in enumerate(sigk):
+                    if tk[k].kind == "ident" and tk[k].text == key and q + 6 < len(sigk):
+                        w = [tk[sigk[q + d]].text for d in range(1, 7)]
+                        if w[0] == "." and w[1] == "with" and w[2] == "(" and w[3] == "|" and w[5] == "|":
+                            hit = (k, sigk[q + 3], sigk[q + 6], w[4]); break
+                if not hit: break
+                k0, open_paren, after_bar, var = hit
+                close_paren = _mc8(tk, open_paren)
+                inner_b = "".join(t.text for t in tk[after_bar + 1:close_paren])
+                body = "".join(t.text for t in tk[:k0]) + "({ let " + var + " = &mut r25_tls." + field + "; " + inner_b + " })" + "".join(t.text for t in tk[close_paren + 1:])
+                n_with += 1
+        n_calls = 0
+        for callee in [c for c in (a.get("tls_calls") or "").split(",") if c]:
+            pat = re.compile(re.escape(callee).replace(r"\:\:", r"\s*::\s*") + r"\s*\(")
+            pos = 0
+            while True:
+                m = pat.search(body, pos)
+                if not m: break
+                # matching close paren
+                depth = 0; k = m.end() - 1; pc = None
+                while k < len(body):
+                    if body[k] == "(": depth += 1
+                    elif body[k] == ")":
+                        depth -= 1
+                        if depth == 0: pc = k; break
+                    k += 1
+                args = body[m.end():pc].strip()
+                if "r25_tls" not in args:
+                    body = body[:pc] + (", " if args else "") + "r25_tls" + body[pc:]
+                    n_calls += 1
+                pos = m.end()
+        rules.append(("R25", f"thread-local state passed explicitly: +`r25_tls: &mut ThreadLocals`, {n_with} `KEY.with(..)` rewritten, {n_calls} call(s) pass it on"))
     if a.get("tls_with"):
         # R23: `KEY.with(|x| BODY)` on a thread_local! key -> `{ let x = KEY.tls_ref(); BODY }`: the closure is applied
         # at once to a reference to this thread's instance (LocalKey::with); KEY is the unit's stand-in for the key
